@@ -7,13 +7,16 @@
 //!  * racing rounds on `KeyIdMemstore` (std threads + `futures::executor::block_on`, spin gate):
 //!    single-digest insert races (exactly one winner, every later get returns it) and mixed
 //!    insert/get/delete histories on two digests checked for linearizability per digest;
-//!  * racing rounds on `JwkMemStore` (generate/sign/exists/delete on several threads).
+//!  * racing rounds on `JwkMemStore` (generate/sign/exists/delete on several threads);
+//!  * racing rounds on ONE key id of a `JwkMemStore`: after a per-key rendezvous several threads delete the
+//!    same stored key id (others sign with it / ask whether it exists): exactly one delete of a stored key
+//!    succeeds and the recorded history of that key id must be linearizable (present -> absent).
 //! The Stronghold store is deliberately not linked here (libsodium FFI; no Miri/TSan).
 use crypto::signatures::ed25519 as ed;
 use futures::executor::block_on;
 use identity_did::CoreDID;
 use identity_eddsa_verifier::EdDSAJwsVerifier;
-use identity_jose::jwk::{Jwk, JwkParamsEc, JwkParamsOct, JwkParamsOkp, JwkParamsRsa, JwkType};
+use identity_jose::jwk::{Jwk, JwkParams, JwkParamsEc, JwkParamsOct, JwkParamsOkp, JwkParamsRsa, JwkType};
 use identity_jose::jws::{JwsAlgorithm, JwsVerifier, VerificationInput};
 use identity_storage::{JwkGenOutput, JwkMemStore, JwkStorage, KeyId, KeyIdMemstore, KeyIdStorage, KeyType, MethodDigest};
 use identity_verification::VerificationMethod;
@@ -99,6 +102,38 @@ fn ec(crv: &str, x: &str, y: &str, d: Option<&str>, alg: Option<&str>) -> Jwk {
   j
 }
 
+/// A JWK that declares `kty` but carries the parameters `params` of whatever family (the public API allows it through
+/// `set_params_unchecked` and `params_mut`; `set_kty` would reset the parameters).
+fn declared(kty: JwkType, params: impl Into<JwkParams>, alg: Option<&str>, via_params_mut: bool) -> Jwk {
+  let mut j = Jwk::new(kty);
+  if via_params_mut {
+    *j.params_mut() = params.into();
+  } else {
+    j.set_params_unchecked(params);
+  }
+  if let Some(a) = alg {
+    j.set_alg(a);
+  }
+  j
+}
+
+fn okp_params(crv: &str, x: &str, d: Option<&str>) -> JwkParamsOkp {
+  let mut p = JwkParamsOkp::new();
+  p.crv = crv.to_string();
+  p.x = x.to_string();
+  p.d = d.map(|s| s.to_string());
+  p
+}
+
+fn family(k: JwkType) -> &'static str {
+  match k {
+    JwkType::Ec => "EC",
+    JwkType::Rsa => "RSA",
+    JwkType::Oct => "oct",
+    JwkType::Okp => "OKP",
+  }
+}
+
 /// Harness-made Ed25519 JWKs for key `label`.
 fn ed_parts(label: u64) -> (String, String, [u8; 32]) {
   let k = Key::ed(label);
@@ -152,6 +187,12 @@ struct Hist<'a> {
   /// Miri: keep the number of (interpreted, very slow) curve operations minimal
   tiny: bool,
   seed_info: Value,
+  /// `kid` values carried by JWKs that were inserted earlier in this history
+  kid_pool: Vec<String>,
+  /// inserted harness keys: (index into `keys`, x, d, kid the JWK carried) — for re-imports after a delete
+  imported: Vec<(usize, String, String, Option<String>)>,
+  /// model and store diverged through a reported violation: the history ends here
+  broken: bool,
 }
 
 impl<'a> Hist<'a> {
@@ -385,32 +426,96 @@ impl<'a> Hist<'a> {
 
   // ------------------------------------------------------------------ insert
   fn op_insert(&mut self) {
-    let label = self.label_base + self.next();
-    let (x, d, pk) = ed_parts(label);
-    let with_kid = self.rng.bool();
+    // which key: a new one, or the re-import of a harness key whose earlier key id has been deleted since
+    let dead_imports: Vec<usize> = (0..self.imported.len()).filter(|&i| !self.keys[self.imported[i].0].alive).collect();
+    let reimport: Option<usize> = if !dead_imports.is_empty() && self.rng.chance(1, 4) { Some(*self.rng.pick(&dead_imports)) } else { None };
+    let (x, d, pk, what): (String, String, [u8; 32], String) = match reimport {
+      Some(i) => {
+        let (k, x, d, _) = self.imported[i].clone();
+        (x, d, self.keys[k].pk, format!("private Ed25519 of deleted key#{} again", k))
+      }
+      None => {
+        let label = self.label_base + self.next();
+        let (x, d, pk) = ed_parts(label);
+        (x, d, pk, format!("private Ed25519 label {}", label))
+      }
+    };
+    // the `kid` member is the caller's business: absent, the thumbprint, a value other inserted JWKs carry
+    // as well, a key id the store handed out earlier (live or deleted), or some fixed text
+    let (kid, kid_kind): (Option<String>, &'static str) = match (self.rng.below(12), reimport) {
+      (0..=3, Some(i)) if self.imported[i].3.is_some() => (self.imported[i].3.clone(), "same-as-before"),
+      (0 | 1, _) => (None, "none"),
+      (2 | 3, _) => (Some(ed_thumbprint(&x)), "thumbprint"),
+      (4 | 5, _) if !self.kid_pool.is_empty() => (Some(self.rng.pick(&self.kid_pool).clone()), "shared"),
+      (6 | 7 | 8, _) if !self.keys.is_empty() => {
+        let k = self.rng.usize(self.keys.len());
+        (Some(self.keys[k].id.clone()), if self.keys[k].alive { "live-key-id" } else { "deleted-key-id" })
+      }
+      (9, _) => (Some(self.rng.pick(&["shared-kid", "", "non-existent-id", "key-1"]).to_string()), "fixed"),
+      (10, _) => (None, "none"),
+      _ => (Some(ed_thumbprint(&x)), "thumbprint"),
+    };
     let mut jwk = okp("Ed25519", &x, Some(&d), Some("EdDSA"));
-    if with_kid {
-      jwk.set_kid(ed_thumbprint(&x));
+    if let Some(k) = &kid {
+      jwk.set_kid(k.clone());
     }
+    let kid_seen_before = match &kid {
+      Some(k) => self.kid_pool.contains(k) || self.issued.contains(k),
+      None => false,
+    };
     let r = call(self.store.insert(jwk));
     match r {
       Err(p) => self.panic("insert", &p),
       Ok(Err(e)) => {
-        self.log.push(format!("insert(private Ed25519 label {}, alg EdDSA) -> Err({})", label, e));
-        self.viol("insert-rejects-valid", &format!("insert of a fully private Ed25519 JWK with alg EdDSA failed: {}", e));
+        self.log.push(format!("insert({}, alg EdDSA, kid {:?}) -> Err({})", what, kid, e));
+        self.viol("insert-rejects-valid", &format!("insert of a fully private Ed25519 JWK with alg EdDSA (kid: {}) failed: {}", kid_kind, e));
       }
       Ok(Ok(id)) => {
         let id = id.as_str().to_string();
-        self.log.push(format!("insert(private Ed25519 label {}, alg EdDSA) -> key#{} id={}", label, self.keys.len(), id));
+        self.log.push(format!("insert({}, alg EdDSA, kid {:?}) -> key#{} id={}", what, kid, self.keys.len(), id));
         self.rep.inc("insert_ok");
         self.rep.inc("oracle_checks");
-        self.class("insert", "ok", "-");
-        if self.issued.contains(&id) {
-          self.viol("insert-returns-used-key-id", &format!("insert returned key id {:?} already issued for a different key", id));
+        if kid_seen_before {
+          self.rep.inc("insert_ok_kid_seen_before");
         }
+        if reimport.is_some() {
+          self.rep.inc("insert_ok_reimport_after_delete");
+        }
+        self.class("insert", "ok", kid_kind);
+        let used: Vec<usize> = (0..self.keys.len()).filter(|&j| self.keys[j].id == id).collect();
+        let used_before = self.issued.contains(&id);
         self.issued.insert(id.clone());
-        self.keys.push(KeyRec { id, pk, pub_jwk: okp("Ed25519", &x, None, Some("EdDSA")), alive: true, signable: true, origin: "inserted" });
+        if let Some(k) = &kid {
+          if !self.kid_pool.contains(k) {
+            self.kid_pool.push(k.clone());
+          }
+        }
+        self.keys.push(KeyRec { id: id.clone(), pk, pub_jwk: okp("Ed25519", &x, None, Some("EdDSA")), alive: true, signable: true, origin: "inserted" });
         let i = self.keys.len() - 1;
+        self.imported.push((i, x.clone(), d.clone(), kid.clone()));
+        if used_before {
+          // Two keys behind one key id: the id cannot keep signing for the first key and for the new one, and if the
+          // first one was deleted, a deleted key id is back. Observe what the statement says about the OLDER holder.
+          self.viol(
+            "insert-returns-used-key-id",
+            &format!("insert (kid: {}) returned key id {:?} which this store had already issued for another stored/deleted key", kid_kind, id),
+          );
+          for j in used {
+            if !self.keys[j].alive {
+              self.expect_exists(j, "after a later insert returned the same key id");
+            } else if self.keys[j].signable && self.keys[j].pk != pk {
+              let msg = self.message();
+              let pkj = self.keys[j].pub_jwk.clone();
+              match call(self.store.sign(&KeyId::new(id.clone()), &msg, &pkj)) {
+                Err(p) => self.panic("sign", &p),
+                Ok(Err(e)) => self.viol("sign-fails-on-stored-key", &format!("sign with stored key#{} failed after a later insert returned its key id: {}", j, e)),
+                Ok(Ok(sig)) => self.judge_signature(j, &msg, &sig, "after a later insert returned the same key id"),
+              }
+            }
+          }
+          self.broken = true;
+          return;
+        }
         self.expect_exists(i, "after insert");
       }
     }
@@ -420,7 +525,7 @@ impl<'a> Hist<'a> {
     let label = self.label_base + self.next();
     let (x, d, _) = ed_parts(label);
     // (jwk, description, signature-if-accepted or "" for latitude)
-    let (jwk, what, sig): (Jwk, String, &'static str) = match self.rng.below(14) {
+    let (jwk, what, sig): (Jwk, String, &'static str) = match self.rng.below(17) {
       0 | 1 => (okp("Ed25519", &x, None, Some("EdDSA")), "public-only Ed25519 JWK, alg EdDSA".into(), "insert-accepts-public-only"),
       2 => (okp("Ed25519", &x, Some(&d), None), "private Ed25519 JWK without alg".into(), "insert-accepts-missing-alg"),
       3 | 4 => {
@@ -455,12 +560,52 @@ impl<'a> Hist<'a> {
         j.set_alg(*self.rng.pick(&["EdDSA", "RS256"]));
         (j, "RSA JWK (only d set)".into(), "insert-accepts-wrong-key-type")
       }
-      10 => {
-        // `kty` disagreeing with the parameter family
-        let mut j = okp("Ed25519", &x, Some(&d), Some("EdDSA"));
-        let k = *self.rng.pick(&[JwkType::Ec, JwkType::Rsa, JwkType::Oct]);
-        j.set_kty(k);
-        (j, format!("Ed25519 OKP params under kty {}", k), "insert-accepts-wrong-key-type")
+      10 | 14 | 15 | 16 => {
+        // declared `kty` disagreeing with the family of the parameters the JWK carries. Every JWS algorithm belongs to
+        // one key type, so whatever `alg` says it is incompatible with the declared type or with the key material.
+        let via_mut = self.rng.bool();
+        let (j, what): (Jwk, String) = match self.rng.below(6) {
+          0 | 1 | 2 => {
+            // a complete private Ed25519 parameter set under another declared type
+            let k = *self.rng.pick(&[JwkType::Ec, JwkType::Rsa, JwkType::Oct]);
+            let a = match (self.rng.below(4), k) {
+              (0, JwkType::Ec) => "ES256",
+              (0, JwkType::Rsa) => "RS256",
+              (0, _) => "HS256",
+              _ => "EdDSA",
+            };
+            (declared(k, okp_params("Ed25519", &x, Some(&d)), Some(a), via_mut), format!("private Ed25519 OKP params under declared kty {}, alg {}", family(k), a))
+          }
+          3 => {
+            // declared OKP, EC key material
+            let (alg, crv, name) = if self.rng.bool() { (Alg::ES256, "P-256", "ES256") } else { (Alg::ES256K, "secp256k1", "ES256K") };
+            let (ex, ey, ed_) = ec_parts(alg, label);
+            let mut p = JwkParamsEc::new();
+            p.crv = if self.rng.chance(1, 3) { "BLS12381G2".to_string() } else { crv.to_string() };
+            p.x = ex;
+            p.y = ey;
+            p.d = Some(ed_);
+            let a = *self.rng.pick(&["EdDSA", name]);
+            let what = format!("private EC {} params under declared kty OKP, alg {}", p.crv, a);
+            (declared(JwkType::Okp, p, Some(a), via_mut), what)
+          }
+          4 => {
+            let a = *self.rng.pick(&["EdDSA", "HS256"]);
+            let k = *self.rng.pick(&[JwkType::Okp, JwkType::Ec]);
+            (declared(k, JwkParamsOct { k: d.clone() }, Some(a), via_mut), format!("oct params under declared kty {}, alg {}", family(k), a))
+          }
+          _ => {
+            let mut p = JwkParamsRsa::new();
+            p.n = x.clone();
+            p.e = "AQAB".into();
+            p.d = Some(d.clone());
+            let a = *self.rng.pick(&["EdDSA", "RS256"]);
+            let k = *self.rng.pick(&[JwkType::Okp, JwkType::Ec]);
+            (declared(k, p, Some(a), via_mut), format!("RSA params under declared kty {}, alg {}", family(k), a))
+          }
+        };
+        self.rep.inc("insert_kty_mismatch_cases");
+        (j, what, "insert-accepts-kty-params-mismatch")
       }
       11 => {
         // BLS curve on an EC JWK: no JWS algorithm is compatible with it
@@ -484,6 +629,9 @@ impl<'a> Hist<'a> {
       Ok(Err(e)) => {
         self.log.push(format!("insert({}) -> Err({})", what, e));
         self.rep.inc("insert_rejected");
+        if sig == "insert-accepts-kty-params-mismatch" {
+          self.rep.inc("insert_kty_mismatch_rejected");
+        }
         self.class("insert-invalid", "err", if sig.is_empty() { "lat" } else { &sig[15..] });
         self.check_count("rejected");
       }
@@ -625,9 +773,8 @@ impl<'a> Hist<'a> {
         (okp(crv, &own_x, None, Some("EdDSA")), format!("own x under crv {:?}", crv))
       }
       7 => {
-        let mut j = okp("Ed25519", &own_x, None, Some("EdDSA"));
-        j.set_kty(JwkType::Ec);
-        (j, "own OKP params under kty EC".into())
+        let k = *self.rng.pick(&[JwkType::Ec, JwkType::Rsa, JwkType::Oct]);
+        (declared(k, okp_params("Ed25519", &own_x, None), Some("EdDSA"), self.rng.bool()), format!("own-OKP-params-under-declared-kty-{}", family(k)))
       }
       _ => {
         let (x2, _, _) = ed_parts(self.label_base + 900_000_000 + self.ctr);
@@ -1053,14 +1200,24 @@ fn run_history(rep: &mut Report, rng: Rng, hist_no: u64, ops: usize, light: bool
     max_cross: if tiny { 0 } else if light { 2 } else { 64 },
     tiny,
     seed_info: json!({"seed":args.seed,"shard":args.shard,"nshards":args.nshards,"thorough":args.thorough,"history":hist_no}),
+    kid_pool: Vec::new(),
+    imported: Vec::new(),
+    broken: false,
   };
   // every history starts with one key so that sign/delete have a target early on
   h.rep.eval();
   h.op_generate();
   for _ in 0..ops {
+    if h.broken {
+      break;
+    }
     h.step();
   }
-  h.sweep();
+  if h.broken {
+    h.rep.inc("seq_histories_cut_short");
+  } else {
+    h.sweep();
+  }
   let kinds = std::mem::take(&mut h.kinds);
   h.rep.distinct("histories", &kinds);
   h.rep.inc("seq_histories");
@@ -1528,6 +1685,9 @@ impl<'a> Races<'a> {
       max_cross: if self.tiny { 0 } else { 64 },
       tiny: self.tiny,
       seed_info: case.clone(),
+      kid_pool: Vec::new(),
+      imported: Vec::new(),
+      broken: false,
     };
     let Some(shared_rec) = h.judge_generated(&shared, "EdDSA") else { return };
     h.issued.insert(shared_rec.id.clone());
@@ -1593,6 +1753,330 @@ impl<'a> Races<'a> {
 }
 
 // ---------------------------------------------------------------------------------------------
+// racing rounds on ONE key id of a JwkMemStore
+// ---------------------------------------------------------------------------------------------
+
+/// Reusable spin rendezvous: step `s` is passed once all `n` threads have arrived at step `s`.
+struct Rendezvous {
+  count: AtomicUsize,
+  n: usize,
+}
+impl Rendezvous {
+  fn wait(&self, step: usize) {
+    self.count.fetch_add(1, Ordering::SeqCst);
+    let want = self.n * (step + 1);
+    let mut spins = 0u32;
+    while self.count.load(Ordering::SeqCst) < want {
+      std::hint::spin_loop();
+      spins += 1;
+      if spins % 64 == 0 {
+        std::thread::yield_now();
+      }
+    }
+  }
+}
+
+#[derive(Clone, Copy, Debug, PartialEq, Eq)]
+enum JK {
+  Delete,
+  Exists,
+  Sign,
+}
+
+#[derive(Clone, Debug)]
+struct JEv {
+  thread: usize,
+  key: usize,
+  kind: JK,
+  call: u64,
+  ret: u64,
+  /// Delete: returned Ok; Exists: returned Ok(true); Sign: returned a signature
+  ok: bool,
+  err: Option<String>,
+  msg: Vec<u8>,
+  sig: Option<Vec<u8>>,
+  panic: Option<PanicRec>,
+}
+
+fn jev_json(e: &JEv) -> Value {
+  json!({"thread":e.thread,"key":e.key,"op":format!("{:?}", e.kind),"call":e.call,"ret":e.ret,"ok":e.ok,"error":e.err})
+}
+
+struct RaceKey {
+  id: KeyId,
+  pk: [u8; 32],
+  pub_jwk: Jwk,
+  origin: &'static str,
+}
+
+fn jwk_op(store: &JwkMemStore, keys: &[RaceKey], clock: &AtomicU64, thread: usize, key: usize, kind: JK, round: u64) -> JEv {
+  let msg: Vec<u8> = if kind == JK::Sign { format!("race-del-r{}k{}t{}", round, key, thread).into_bytes() } else { Vec::new() };
+  let call_stamp = clock.fetch_add(1, Ordering::SeqCst);
+  let (ok, err, sig, panic) = match kind {
+    JK::Delete => match call(store.delete(&keys[key].id)) {
+      Ok(Ok(())) => (true, None, None, None),
+      Ok(Err(e)) => (false, Some(e.to_string()), None, None),
+      Err(p) => (false, None, None, Some(p)),
+    },
+    JK::Exists => match call(store.exists(&keys[key].id)) {
+      Ok(Ok(b)) => (b, None, None, None),
+      Ok(Err(e)) => (false, Some(e.to_string()), None, None),
+      Err(p) => (false, None, None, Some(p)),
+    },
+    JK::Sign => match call(store.sign(&keys[key].id, &msg, &keys[key].pub_jwk)) {
+      Ok(Ok(s)) => (true, None, Some(s), None),
+      Ok(Err(e)) => (false, Some(e.to_string()), None, None),
+      Err(p) => (false, None, None, Some(p)),
+    },
+  };
+  let ret = clock.fetch_add(1, Ordering::SeqCst);
+  JEv { thread, key, kind, call: call_stamp, ret, ok, err, msg, sig, panic }
+}
+
+impl<'a> Races<'a> {
+  /// `nkeys` keys are stored; for every key, after a rendezvous, every thread runs its short script on THAT key id
+  /// (at least two threads delete it straight away, the others delete / sign / ask `exists`, some delete twice).
+  /// Statement: a deleted key id neither signs, exists nor deletes — so of all deletes of one stored key exactly one
+  /// succeeds, and the key id's history has to be explicable by present -> absent (Wing–Gong search).
+  fn round_jwk_delete(&mut self, round: u64, n: usize, nkeys: usize) {
+    self.rep.eval();
+    let store = Arc::new(JwkMemStore::new());
+    let run = json!({"seed":self.args.seed,"shard":self.args.shard,"nshards":self.args.nshards,"round":round,"threads":n});
+    // ---- setup (single-threaded): generated and inserted keys
+    let mut keys: Vec<RaceKey> = Vec::new();
+    for k in 0..nkeys {
+      let generated = !self.tiny && k % 4 == 3;
+      if generated {
+        match call(store.generate(JwkMemStore::ED25519_KEY_TYPE, JwsAlgorithm::EdDSA)) {
+          Ok(Ok(out)) => {
+            let x = serde_json::to_value(&out.jwk).ok().and_then(|v| v.get("x").and_then(|x| x.as_str()).map(|s| s.to_string())).unwrap_or_default();
+            let Some(pk) = url_decode(&x).and_then(|b| <[u8; 32]>::try_from(b).ok()) else {
+              self.rep.violation("generate-jwk-malformed", "Ed25519 generate returned a JWK without a 32 byte x", json!({"run":run}));
+              return;
+            };
+            keys.push(RaceKey { id: out.key_id.clone(), pk, pub_jwk: out.jwk.clone(), origin: "generated" });
+          }
+          Ok(Err(e)) => {
+            self.rep.violation("generate-fails", &format!("generate(Ed25519, EdDSA) failed: {}", e), json!({"run":run}));
+            return;
+          }
+          Err(p) => {
+            if p.in_harness() {
+              panic!("harness bug in racing round setup: {} at {}", p.msg, p.loc());
+            }
+            self.rep.violation(&format!("generate-panic@{}", p.file_only()), &format!("generate panicked: {} at {}", p.msg, p.loc()), json!({"run":run}));
+            return;
+          }
+        }
+      } else {
+        let label = 7_000_000_000_000 + (round % 1_000_000) * 64 + k as u64 + self.args.shard * 100_000_000;
+        let (x, d, pk) = ed_parts(label);
+        let mut jwk = okp("Ed25519", &x, Some(&d), Some("EdDSA"));
+        if k % 2 == 1 {
+          jwk.set_kid(ed_thumbprint(&x));
+        }
+        match call(store.insert(jwk)) {
+          Ok(Ok(id)) => keys.push(RaceKey { id, pk, pub_jwk: okp("Ed25519", &x, None, Some("EdDSA")), origin: "inserted" }),
+          Ok(Err(e)) => {
+            self.rep.violation("insert-rejects-valid", &format!("insert of a fully private Ed25519 JWK with alg EdDSA failed: {}", e), json!({"run":run}));
+            return;
+          }
+          Err(p) => {
+            if p.in_harness() {
+              panic!("harness bug in racing round setup: {} at {}", p.msg, p.loc());
+            }
+            self.rep.violation(&format!("insert-panic@{}", p.file_only()), &format!("insert panicked: {} at {}", p.msg, p.loc()), json!({"run":run}));
+            return;
+          }
+        }
+      }
+    }
+    let ids: BTreeSet<&str> = keys.iter().map(|k| k.id.as_str()).collect();
+    if ids.len() != keys.len() {
+      self.rep.violation("insert-returns-used-key-id", "two stored keys of one store got the same key id", json!({"run":run,"ids":keys.iter().map(|k| k.id.as_str()).collect::<Vec<_>>()}));
+      return;
+    }
+    // ---- scripts: [thread][key] -> ops. Threads 0 and 1 always open with a delete.
+    let max_ops = if n >= 16 { 1 } else { 2 };
+    let scripts: Vec<Vec<Vec<JK>>> = (0..n)
+      .map(|t| {
+        (0..nkeys)
+          .map(|_| {
+            let pure = t < 2 || self.rng.chance(1, 2);
+            let mut v: Vec<JK> = match (pure, self.rng.below(8)) {
+              (true, 0) => vec![JK::Delete, JK::Delete],
+              (true, 1) => vec![JK::Delete, JK::Exists],
+              (true, 2) => vec![JK::Delete, JK::Sign],
+              (true, _) => vec![JK::Delete],
+              (false, 0 | 1) => vec![JK::Exists, JK::Delete],
+              (false, 2 | 3) => vec![JK::Sign, JK::Delete],
+              (false, 4) => vec![JK::Sign],
+              (false, 5) => vec![JK::Exists],
+              (false, _) => vec![JK::Delete],
+            };
+            v.truncate(max_ops);
+            v
+          })
+          .collect()
+      })
+      .collect();
+    let keys = Arc::new(keys);
+    let clock = Arc::new(AtomicU64::new(0));
+    let rv = Arc::new(Rendezvous { count: AtomicUsize::new(0), n });
+    let mut evs: Vec<JEv> = Vec::new();
+    std::thread::scope(|s| {
+      let hs: Vec<_> = scripts
+        .iter()
+        .enumerate()
+        .map(|(t, script)| {
+          let (store, keys, clock, rv) = (store.clone(), keys.clone(), clock.clone(), rv.clone());
+          s.spawn(move || {
+            let mut out: Vec<JEv> = Vec::new();
+            for (k, ops) in script.iter().enumerate() {
+              rv.wait(k);
+              for op in ops {
+                out.push(jwk_op(&store, &keys, &clock, t, k, *op, round));
+              }
+            }
+            out
+          })
+        })
+        .collect();
+      for h in hs {
+        evs.extend(h.join().expect("harness: racing thread died"));
+      }
+    });
+    // after everything returned: every key id is gone for good
+    for k in 0..nkeys {
+      evs.push(jwk_op(&store, &keys, &clock, n, k, JK::Exists, round));
+      if k == 0 {
+        evs.push(jwk_op(&store, &keys, &clock, n, k, JK::Delete, round));
+      }
+    }
+    self.rep.inc("race_rounds_jwk_delete");
+    self.rep.count("race_ops", evs.len() as u64);
+    let mut any_panic = false;
+    for e in &evs {
+      if let Some(p) = &e.panic {
+        any_panic = true;
+        if p.in_harness() {
+          panic!("harness bug in racing round: {} at {}", p.msg, p.loc());
+        }
+        self.rep.violation(
+          &format!("jwk-race-panic@{}", p.file_only()),
+          &format!("{:?} panicked while several threads worked on one key id: {} at {}", e.kind, p.msg, p.loc()),
+          json!({"run":run,"event":jev_json(e)}),
+        );
+      }
+    }
+    if any_panic {
+      return;
+    }
+    let mut all_single = true;
+    for k in 0..nkeys {
+      let sub: Vec<&JEv> = evs.iter().filter(|e| e.key == k).collect();
+      let case = |sub: &[&JEv]| json!({"run":run,"key":k,"origin":keys[k].origin,"key_id":keys[k].id.as_str(),"events":sub.iter().map(|e| jev_json(e)).collect::<Vec<_>>()});
+      self.rep.inc("race_delete_keys");
+      self.rep.inc("oracle_checks");
+      // signatures produced while the key id was under deletion still belong to that key
+      for e in sub.iter().filter(|e| e.kind == JK::Sign && e.ok) {
+        self.rep.inc("race_delete_sign_ok");
+        if !direct_verify(&keys[k].pk, &e.msg, e.sig.as_deref().unwrap_or(&[])) {
+          self.rep.violation(
+            "sign-not-verifying-under-own-key",
+            &format!("signature made by thread {} for a key id that other threads were deleting fails ed25519 verification under that key", e.thread),
+            case(&sub),
+          );
+        }
+      }
+      let dels: Vec<&&JEv> = sub.iter().filter(|e| e.kind == JK::Delete).collect();
+      let winners = dels.iter().filter(|e| e.ok).count();
+      let overlapping = dels.iter().any(|a| dels.iter().any(|b| a.thread != b.thread && a.call < b.ret && b.call < a.ret));
+      if overlapping {
+        self.rep.inc("race_delete_overlap");
+      }
+      self.rep.count("race_delete_losers", (dels.len() - winners.min(dels.len())) as u64);
+      match winners {
+        1 => self.rep.inc("race_delete_single_winner"),
+        0 => {
+          all_single = false;
+          self.rep.violation(
+            "race-no-delete-winner",
+            &format!("none of {} delete calls ({} threads) for one stored key id ({}) succeeded", dels.len(), n, keys[k].origin),
+            case(&sub),
+          );
+          continue;
+        }
+        w => {
+          all_single = false;
+          self.rep.violation(
+            "race-multiple-delete-winners",
+            &format!("{} of {} delete calls ({} threads) for ONE stored key id ({}) succeeded; a deleted key id does not delete", w, dels.len(), n, keys[k].origin),
+            case(&sub),
+          );
+          continue;
+        }
+      }
+      // whole history of the key id: present -> absent, judged by the map model of the keyid races
+      let conv: Vec<Ev> = sub
+        .iter()
+        .map(|e| Ev {
+          thread: e.thread,
+          kind: if e.kind == JK::Delete { K::Delete } else { K::Get },
+          digest: k,
+          val: String::new(),
+          call: e.call,
+          ret: e.ret,
+          ok: e.ok,
+          got: if e.kind != JK::Delete && e.ok { Some("stored".to_string()) } else { None },
+          panic: None,
+        })
+        .collect();
+      let refs: Vec<&Ev> = conv.iter().collect();
+      let mut budget: u64 = 400_000;
+      match linearizable(&refs, Some("stored".to_string()), &mut budget) {
+        Some(true) => {
+          self.rep.inc("jwk_lin_checked");
+          if overlapping {
+            self.rep.inc("jwk_lin_checked_with_overlap");
+          }
+          let signs = sub.iter().filter(|e| e.kind == JK::Sign && e.ok).count();
+          let seen = sub.iter().filter(|e| e.kind == JK::Exists && e.ok).count();
+          self.rep.distinct("nontrivial", &format!("race-del|n{}|{}|dels{}|signs{}|seen{}|ov{}", n, keys[k].origin, dels.len().min(12), signs.min(3), seen.min(3), overlapping));
+        }
+        Some(false) => {
+          self.rep.violation(
+            "jwk-history-not-linearizable",
+            &format!("concurrent delete/sign/exists history on one key id ({} ops, {} threads) has no sequential explanation: a deleted key id signed, existed or deleted", sub.len(), n),
+            case(&sub),
+          );
+        }
+        None => self.rep.inc("lin_timeout"),
+      }
+    }
+    let mut pattern = format!("del|n{}|", n);
+    for e in &evs {
+      pattern.push(match (e.kind, e.ok) {
+        (JK::Delete, true) => 'D',
+        (JK::Delete, false) => 'd',
+        (JK::Exists, true) => 'E',
+        (JK::Exists, false) => 'e',
+        (JK::Sign, true) => 'S',
+        (JK::Sign, false) => 's',
+      });
+    }
+    self.rep.distinct("schedules", &pattern);
+    if all_single {
+      match call(store.count()) {
+        Ok(0) => {}
+        Ok(c) => self.rep.violation("count-mismatch", &format!("{} keys left in the store after every key id was deleted successfully once", c), json!({"run":run})),
+        Err(p) => self.rep.violation(&format!("count-panic@{}", p.file_only()), &p.msg, json!({"run":run})),
+      }
+    }
+  }
+}
+
+// ---------------------------------------------------------------------------------------------
 
 fn scaled(total: u64, scale: u64, nshards: u64, floor: u64) -> u64 {
   ((total * scale / 1000) / nshards.max(1)).max(floor)
@@ -1604,8 +2088,9 @@ fn main() {
   let light = scale < 100;
   // under Miri every curve operation costs seconds: the sequential part shrinks to one short history
   let tiny = cfg!(miri);
-  // --parts bitmask: 1 sequential histories, 2 single-digest races, 4 mixed races, 8 JwkMemStore races
-  let parts = args.extra_u64("parts", 15);
+  // --parts bitmask: 1 sequential histories, 2 single-digest races, 4 mixed races, 8 JwkMemStore races,
+  // 16 races on one key id of a JwkMemStore
+  let parts = args.extra_u64("parts", 31);
   let mut rep = Report::new("C15");
   rep.rule(
     "cases = (a) operations of seeded random sequential histories (generate/insert/sign/delete/exists with valid and invalid \
@@ -1613,7 +2098,8 @@ fn main() {
      RFC 7638 thumbprint and ed25519 verification under own and every other key; (b) racing rounds: n threads insert under one \
      digest / run random scripts on two digests (linearizability per digest) / use one JwkMemStore. non-trivial+distinct = \
      (operation, outcome, target class, live/deleted key buckets) for (a) and (round kind, threads, winner thread, overlap, \
-     result pattern) for (b); `histories` = distinct op/outcome sequences; `schedules` = distinct observed result patterns",
+     result pattern) for (b); (c) racing rounds on one key id: after a rendezvous n threads delete / sign / ask exists for the \
+     SAME stored key id (exactly one delete succeeds, the key id's history is linearizable present -> absent); `histories` = distinct op/outcome sequences; `schedules` = distinct observed result patterns",
   );
   let mult: u64 = if args.thorough { 50 } else { 1 };
 
@@ -1649,6 +2135,13 @@ fn main() {
     let n = if light { 2 } else { [2usize, 4, 8][(r % 3) as usize] };
     races.round_jwk(args.shard * 1_000_000 + r, n);
   }
-  rep.note("workload", json!({"histories_per_shard":n_hist,"ops_per_history":ops,"single_rounds":n_single,"mixed_rounds":n_mixed,"jwk_rounds":n_jwk,"scale":scale,"parts":parts,"miri":tiny}));
+  let n_del = if parts & 16 == 0 { 0 } else { scaled(args.extra_u64("delrounds", 800) * mult, scale, args.nshards, 2) };
+  let del_threads: &[usize] = if light { &[2, 3] } else { &[2, 3, 4, 2, 8, 3, 4, 16] };
+  for r in 0..n_del {
+    let n = del_threads[(r % del_threads.len() as u64) as usize];
+    let nkeys = if tiny { 2 } else if light { 3 } else { 8 };
+    races.round_jwk_delete(args.shard * 1_000_000 + r, n, nkeys);
+  }
+  rep.note("workload", json!({"histories_per_shard":n_hist,"jwk_delete_rounds":n_del,"ops_per_history":ops,"single_rounds":n_single,"mixed_rounds":n_mixed,"jwk_rounds":n_jwk,"scale":scale,"parts":parts,"miri":tiny}));
   rep.finish();
 }
